@@ -1,0 +1,16 @@
+//go:build verif
+
+package nfa
+
+// Contracts for the deductive checker in /verif (comment-only file; adds no code).
+//
+//@ func StateFactory.NewState
+//@   requires !isnil(n)
+//@   ensures !isnil(result) && fresh(result) && !result.NonGreedy && !result.Accept && result.ID == old(n.nextID)
+//@   modifies n.nextID
+//
+// AddTransition only touches the transition table of its receiver (and allocates).
+//@ func State.AddTransition
+//@   trusted
+//@   requires !isnil(s) && !isnil(to)
+//@   modifies s.Transitions
